@@ -49,10 +49,11 @@ impl Service<u8> for Inner {
 fn main() {
     let stop_at: u64 = std::env::args().nth(1).and_then(|s| s.parse().ok()).unwrap_or((1u64 << 32) + 16);
     let calls = Arc::new(AtomicU64::new(0));
-    let config = ReconnectConfig::builder()
-        .policy(ReconnectPolicy::fixed(Duration::ZERO))
-        .unlimited_attempts()
-        .build();
+    // second argument "max": use max_attempts(u32::MAX) instead of unlimited attempts; the layer must then
+    // give up after exactly 2^32 inner calls (it did not before /repo commit 4ccf9b3)
+    let bounded = std::env::args().nth(2).as_deref() == Some("max");
+    let builder = ReconnectConfig::builder().policy(ReconnectPolicy::fixed(Duration::ZERO));
+    let config = if bounded { builder.max_attempts(u32::MAX).build() } else { builder.unlimited_attempts().build() };
     let mut svc = ReconnectLayer::new(config).layer(Inner { calls: calls.clone(), stop_at });
     let rt = tokio::runtime::Builder::new_current_thread().enable_time().start_paused(true).build().unwrap();
     let res = std::panic::catch_unwind(std::panic::AssertUnwindSafe(|| {
